@@ -27,6 +27,7 @@ LIMITS = {
     # objects, which the caller later re-uses: nothing done to B, U or the arrays may move a well of A or S
     "alias": (10, 100, 50),
 }
+BULK = ("mid", "third", "dec_hi2", "empty")  # configurations with a 4 x 4 plate for calls that name 17 and more wells
 assert 0.6 + (1.7 - 0.6) > 1.7 and 32.02 + (100.2 - 32.02) > 100.2 and 0.39 - (0.39 - 0.1) < 0.1
 _MSG = re.compile(r'"(.+?)"\.([A-Z]\d+):')
 
@@ -104,7 +105,7 @@ class Harness(cm.BaseA):
             out.append(
                 {
                     "limits": name,
-                    "labware": [plate("A", 2, 1, mn, mx, init), trough("S", 2, 2, mn, mx, [init, init])]
+                    "labware": [plate("A", 2, 1, mn, mx, init), trough("S", 2, 2, mn, mx, [init, init])] + ([plate("G", 4, 4, mn, mx, init)] if name in BULK else [])
                     if name not in ("f32", "i64")
                     else [
                         dict(plate("A", 2, 1, mn, mx, [[init], [init]]), np="float32" if name == "f32" else "int64"),
@@ -169,6 +170,14 @@ class Harness(cm.BaseA):
                 ev.append(["aspirate", "w", lw, [wid, wid, wid], J(av / 2), {}])
                 ev.append(["add", lw, [wid, wid], [J(room), J(5e-324)], {}])
                 ev.append(["remove", lw, [wid, wid], [J(av), J(5e-324)], {}])
+                # small unsigned integer dtypes: the negation / product of such a volume must not wrap around
+                k_bad, k_ok = int(av) + 1, int(av / 2)
+                if 0 < k_bad <= 255:
+                    ev.append(["remove", lw, wid, {"$npa": ["uint8", [k_bad]]}, {}])
+                    ev.append(["aspirate", "w", lw, [wid], {"$nps": ["uint16", k_bad]}, {}])
+                if 1 <= k_ok <= 255:
+                    ev.append(["remove", lw, wid, {"$nps": ["uint8", k_ok]}, {}])
+                    ev.append(["aspirate", "w", lw, [wid, wid], {"$npa": ["uint8", [k_ok, 1 if av - k_ok >= 1 else 0]]}, {}])
                 # single-precision volume arguments: every float32 is a float64, the sum must be taken in double precision
                 x32, y32 = up32(na(room)), up32(na(av))
                 if x32 is not None and room > 0:
@@ -189,6 +198,21 @@ class Harness(cm.BaseA):
                     ev.append(["remove", lw, wid, J(na(v - mn)), {"label": lab}])
                     ev.append(["dispense", "w", lw, [wid], [J(na(mx - v))], {"label": lab}])
                     ev.append(["aspirate", "w", lw, [wid], [J(na(v - mn))], {"label": lab}])
+        # bulk calls: 17 entries on a 16-well plate, the well named twice fits each portion but not both
+        if full and config["limits"] in BULK and "G" in W["lw"]:
+            from ..ref.numbering import well_id
+
+            ids = [well_id(r, c) for c in range(4) for r in range(4)]
+            g0 = self._vol(W, "G", "A01")
+            room, av = mx - g0, g0 - mn
+            if room > 0:
+                ev.append(["add", "G", ids + ["A01"], J(room * 0.6), {}])
+                ev.append(["dispense", "w", "G", ids + ids[5:6] + ["A01"], J(room * 0.6), {}])
+                ev.append(["add", "G", ids[:8] + ["D04", "D04"] + ids[8:], [J(room * 0.6)] * 9 + [J(na(room * 0.4))] + [J(room / 4)] * 8, {}])
+                ev.append(["add", "G", ids + ["B02"], J(room / 2), {}])
+            if av > 0:
+                ev.append(["remove", "G", ids + ["A01"], J(av * 0.6), {}])
+                ev.append(["aspirate", "w", "G", ids + ["C03", "C03"], J(av / 3), {}])
         # two different wells in one call: the second is refused after the first was applied
         for lw, w1, w2 in (("A", "A01", "B01"), ("S", "A01", "A02")):
             v1, v2 = self._vol(W, lw, w1), self._vol(W, lw, w2)
